@@ -17,10 +17,10 @@ REPO = "/repo"
 ENV = dict(os.environ, GOFLAGS="-mod=mod", GOPROXY="off", GOSUMDB="off", GOTOOLCHAIN="local")
 OWN = {
     "json.go": ["C01", "C02"], "signing.go": ["C02"], "eventauth.go": ["C07", "C08", "C09"],
-    "eventcontent.go": ["C07", "C08"], "stateresolution.go": ["C10", "C11"], "stateresolutionv2.go": ["C10", "C11"],
-    "keyring.go": ["C12", "C06"], "event.go": ["C03", "C04", "C17"], "eventV1.go": ["C03", "C04", "C05", "C17"],
+    "eventcontent.go": ["C07", "C08"], "stateresolution.go": ["C10", "C11", "C18"], "stateresolutionv2.go": ["C10", "C11", "C18"],
+    "keyring.go": ["C12", "C06"], "event.go": ["C03", "C04", "C17", "C07"], "eventV1.go": ["C03", "C04", "C05", "C17"],
     "eventV2.go": ["C03", "C04", "C05", "C17"], "eventV3.go": ["C03", "C04", "C17"], "redactevent.go": ["C05"],
-    "eventcrypto.go": ["C06", "C04", "C03"], "authstate.go": ["C14"], "authchain.go": ["C14"],
+    "eventcrypto.go": ["C06", "C04", "C03"], "authstate.go": ["C14", "C18"], "authchain.go": ["C14"],
     "fclient/request.go": ["C13"], "fclient/resolve.go": ["C16"], "fclient/well_known.go": ["C16"],
     "spec/servername.go": ["C17"], "spec/userid.go": ["C17"], "spec/roomid.go": ["C17"], "spec/senderid.go": ["C17"],
     "spec/base64.go": ["C17"], "tokens/tokens.go": ["C20"], "handleinvite.go": ["C15"], "handlejoin.go": ["C15"],
